@@ -28,8 +28,9 @@ def run(ctx, rep):
     if not fs:
         rep.violation("ANCHOR", "crypto_kdf_derive_from_key", "public function not found")
         return
-    f = fs[0]
-    subkey = f.arg_local("subkey") or 1
+    from ..inline import inline
+    f = inline(prog, fs[0])      # salt/personal builders and the like folded in
+    subkey = 1                   # public signature (positional): (subkey, subkey_id, context, main_key)
     sid, ctxp, mk = 2, 3, 4
     ef = edge_facts(f, cm.view_info)
     nok = 0
@@ -73,6 +74,11 @@ def run(ctx, rep):
                     # prefix boundary
                     d = def_sites(f, cm.strip_reborrow(f, list(operand_locals(c.args[0]))[0])[-1])
                     return True, "buffer `%s` (%s) filled at %s" % (f.local_name(bl), f.locals[bl]["t"], c.loc())
+        # other ways of filling the buffer (element loops, iterator zips): the buffer's own
+        # dependency slice must contain the expected source
+        for bl in bufs:
+            if src_pred(f.backward_slice([bl]), None):
+                return True, "buffer `%s` (%s) is filled from the expected source (element-wise)" % (f.local_name(bl), f.locals[bl]["t"])
         return False, "no buffer in the operand's slice is filled from the expected source"
     le = [c for c in f.calls() if c.path.endswith("::to_le_bytes")]
     ok, why = buffer_written_from(ini.args[2], lambda sb, c: any(x.dest["l"] in sb for x in le) and sid in sb, 8)
